@@ -133,6 +133,12 @@ impl<const BITS: usize> Context<BITS> {
         self.buflen += input.len();
     }
 
+    /// verification hook: preset the byte counter words (t0 low, t1 high)
+    #[cfg(cryptoxide_verif)]
+    pub fn verif_set_counter(&mut self, t0: u32, t1: u32) {
+        self.eng.t = [t0, t1];
+    }
+
     fn internal_final(&mut self) {
         self.eng.increment_counter(self.buflen as u32);
         zero(&mut self.buf[self.buflen..]);
@@ -262,6 +268,12 @@ impl ContextDyn {
         }
         self.buf[self.buflen..self.buflen + input.len()].copy_from_slice(input);
         self.buflen += input.len();
+    }
+
+    /// verification hook: preset the byte counter words (t0 low, t1 high)
+    #[cfg(cryptoxide_verif)]
+    pub fn verif_set_counter(&mut self, t0: u32, t1: u32) {
+        self.eng.t = [t0, t1];
     }
 
     fn internal_final(&mut self) {
